@@ -27,7 +27,7 @@ Ceil5(x) == (x + 4) \div 5
 \* whose start was given up (required process failed under ABORT / STOP), lost targets, orders received
 \* ran / exok: processes truly seen RUNNING / exited as expected since their request; acked: seen busy since then
 GInit == [req |-> {}, sreq |-> {}, since |-> 0, aborted |-> {}, lost |-> {}, orders |-> [i \in 1..8 |-> 0],
-          everAlive |-> {}, ran |-> {}, exok |-> {}, stamp |-> <<>>, preq |-> {}]   \* preq: requested by the current plan   \* stamp[p][v]: refresh stamp of p at v when p was requested
+          everAlive |-> {}, ran |-> {}, exok |-> {}, stamp |-> <<>>, preq |-> {}, stamp0 |-> <<>>, elect |-> FALSE]   \* preq: requested by the current plan   \* stamp[p][v]: refresh stamp of p at v when p was requested
 
 Truth(st, p, i) == st.truth[p][i]
 RunsSomewhere(st, p) == \E i \in 1..T.n : Truth(st, p, i) \in RunningLike
@@ -39,18 +39,32 @@ View(st, i, p) == st.views[i][p]
 \* a stopped-like display counts once the displayed information was refreshed after the request (an event or a forced
 \* state was taken into account): what was shown before the request says nothing about this start
 Stamp(st, i, p) == st.stamps[i][p]
-GivenUp(st, gg, p, v) == p \in gg.req /\ ((View(st, v, p) \in StoppedLike /\ Stamp(st, v, p) # gg.stamp[p][v])
-                                         \/ p \in gg.lost \/ ~st.alive[T.procs[p].target])
+\* never requested and displayed FATAL although no Supervisor has it FATAL: forced by Supvisors ('No resource
+\* available': the process could not be placed)
+\* (what was displayed before the plan began says nothing about this plan: the display must have been refreshed)
+NoResource(st, gg, p, v) == /\ p \notin gg.preq /\ View(st, v, p) = "FATAL" /\ \A i \in 1..T.n : Truth(st, p, i) # "FATAL"
+                            /\ gg.stamp0 # <<>> /\ Stamp(st, v, p) # gg.stamp0[p][v]
+GivenUp(st, gg, p, v) == \/ p \in gg.req /\ ((View(st, v, p) \in StoppedLike /\ Stamp(st, v, p) # gg.stamp[p][v])
+                                            \/ p \in gg.lost \/ ~st.alive[T.procs[p].target])
+                         \/ NoResource(st, gg, p, v)
 Done(st, gg, p, v) ==
   \/ ~T.procs[p].wait_exit /\ (p \in gg.ran \/ \E i \in 1..T.n : Truth(st, p, i) = "RUNNING")
   \/ T.procs[p].wait_exit /\ (p \in gg.exok \/ \E i \in 1..T.n : Truth(st, p, i) = "EXITED_OK")
   \/ GivenUp(st, gg, p, v)
+  \* the requester does not know the process (no instance it has heard of configures the program)
+  \/ View(st, v, p) = "NONE"
 
 \* the start of application a has been given up before this step
 \* (a required process that started and was lost afterwards is a running failure, not a starting failure)
-AbortNow(st, gg, a, v) == \E r \in gg.preq : AppOf(r) = a /\ T.procs[r].required /\ GivenUp(st, gg, r, v)
+AbortNow(st, gg, a, v) == \E r \in gg.preq \cup {x \in P : T.procs[x].seq > 0 /\ NoResource(st, gg, x, v)} :
+                                      AppOf(r) = a /\ T.procs[r].required /\ GivenUp(st, gg, r, v)
                                       /\ r \notin (IF T.procs[r].wait_exit THEN gg.exok ELSE gg.ran)
-                                      /\ T.apps[a].strategy \in {"ABORT", "STOP"}
+                                      /\ T.procs[r].fstrategy \in {"ABORT", "STOP"}
+
+\* ... by a required process whose starting failure strategy (its own, else the application's) is STOP
+StopAsked(st, gg, a) == \E r \in gg.preq : AppOf(r) = a /\ T.procs[r].required /\ T.procs[r].fstrategy = "STOP"
+                                            /\ r \notin (IF T.procs[r].wait_exit THEN gg.exok ELSE gg.ran)
+                                            /\ \E v \in 1..T.n : GivenUp(st, gg, r, v)
 
 AutoTrigger == T.trigger \in {"distribution", "restart_sequence"}
 
@@ -102,10 +116,15 @@ StepFailures(st, gg) ==
         THEN {} ELSE {"C09.OrderAfterStop"})
 
 \* a user trigger opens a new plan: what was given up by an earlier plan does not bind it
-GReset(gg) == [gg EXCEPT !.aborted = {}, !.preq = {}, !.since = 0]
+GReset(gg, pre) == [gg EXCEPT !.aborted = {}, !.preq = {}, !.since = 0, !.elect = FALSE,
+                                 !.stamp0 = [p \in P |-> [v \in 1..T.n |-> Stamp(pre, v, p)]]]
 
-GStep(st, gg0) ==
-  LET gg == IF st.user THEN GReset(gg0) ELSE gg0
+\* a new automatic plan: a Master (re-)enters DISTRIBUTION (e.g. after instances joined)
+NewDistribution(st, pre) == \E v \in 1..T.n : st.alive[v] /\ st.master[v] = v /\ st.fsm[v] = "DISTRIBUTION"
+                                               /\ pre.fsm[v] # "DISTRIBUTION"
+
+GStep(st, pre, gg0) ==
+  LET gg == IF st.user \/ NewDistribution(st, pre) THEN GReset(gg0, pre) ELSE (IF gg0.stamp0 = <<>> THEN [gg0 EXCEPT !.stamp0 = [p \in P |-> [v \in 1..T.n |-> Stamp(pre, v, p)]]] ELSE gg0)
       starts == {st.reqs[i][4] : i \in {j \in DOMAIN st.reqs : st.reqs[j][1] = "START"}}
       stops == {st.reqs[i][4] : i \in {j \in DOMAIN st.reqs : st.reqs[j][1] = "STOP"}}
       req1 == gg.req \cup starts
@@ -122,6 +141,8 @@ GStep(st, gg0) ==
       planners == IF T.trigger_node # 0 THEN {T.trigger_node} ELSE {v \in 1..T.n : st.alive[v] /\ st.master[v] = v}
       ab == {a \in DOMAIN T.apps : \E v \in planners : st.alive[v] /\ AbortNow(st, g2, a, v)}
   IN [g2 EXCEPT !.aborted = gg.aborted \cup ab,
+                \* F22: the instance running a plan entered ELECTION (all its jobs are aborted there)
+                !.elect = @ \/ (g2.preq # {} /\ \E v \in planners : st.alive[v] /\ st.fsm[v] = "ELECTION"),
                 !.since = IF st.reqs # <<>> THEN 0 ELSE IF st.a = "Tick" /\ st.n = 1 THEN @ + 1 ELSE @,
                 !.orders = [i \in 1..8 |-> gg.orders[i] + Cardinality({j \in DOMAIN st.orders : st.orders[j][1] = i})],
                 !.everAlive = @ \cup {i \in 1..T.n : st.alive[i]}]
@@ -131,9 +152,11 @@ Terminal(st, gg) ==
   LET v == CHOOSE i \in 1..T.n : st.alive[i]
   IN \* STOP strategy: the application given up is stopped
      \* (STOP only happens once the in-flight starts end: not demanded when a wait_exit program never exits)
-     (IF T.wait_exit_forever \/ \A a \in gg.aborted : T.apps[a].strategy = "STOP" =>
+     \* (the instance that ran the plan must still be there to stop anything)
+     (IF T.wait_exit_forever \/ (T.trigger_node # 0 /\ ~st.alive[T.trigger_node])
+         \/ \A a \in gg.aborted : StopAsked(st, gg, a) =>
              \A p \in P : AppOf(p) = a => (~RunsSomewhere(st, p) \/ p \in gg.sreq)
-      THEN {} ELSE {"C03.StopStrategy"})
+      THEN {} ELSE IF gg.elect THEN {"KNOWN.F22"} ELSE {"C03.StopStrategy"})
      \* CONTINUE / optional failures: the plan went on to the end
      \* (judged on the automatic distribution from a cold start: one single plan)
      \cup (IF (T.trigger = "distribution" /\ ~T.wait_exit_forever) =>
@@ -173,8 +196,10 @@ Init == ti \in 1..Len(Traces) /\ k = 0 /\ g = GInit @@ [lost_inst |-> {}]
 
 Step == /\ k < Len(T.steps)
         /\ LET st == T.steps[k + 1]
-               g1 == GStep(st, g)
-           IN /\ Report("V ", T.id, k + 1, StepFailures(st, [g1 EXCEPT !.aborted = IF st.user THEN {} ELSE g.aborted]))
+               pre == IF k = 0 THEN st ELSE T.steps[k]
+               g1 == GStep(st, pre, g)
+           IN /\ Report("V ", T.id, k + 1, StepFailures(st, [g1 EXCEPT !.aborted = IF st.user \/ NewDistribution(st, pre)
+                                                                                   THEN {} ELSE g.aborted]))
               /\ g' = [g1 EXCEPT !.lost_inst = @ \cup {i \in g1.everAlive : ~st.alive[i] /\ g.orders[i] = 0
                                                                            /\ g1.orders[i] = 0}]
         /\ k' = k + 1 /\ ti' = ti
